@@ -64,6 +64,10 @@ STRENGTHENED = {
     "C15-6": "public pipeline on a CLOSED trajectory (corrected Lyapunov orbit over one period), sections crossed in the first / last sample interval",
     "C16-5": "`c16long.py`: the same grid shifted to clock values 1000 and 2000 must give the same states (autonomous Hamiltonian)",
     "C19-5": "scale-invariance re-runs extended to 2^-20 and 2^-24 of the unit scale",
+    "C09-5": "C08: generator list with an empty block below a populated one; C09 thorough: mu = 1/2 at L1, degree 6",
+    "C17-5": "twin configurations with an explicitly time-dependent event (moving section); a value-level difference at a trace event is a violation even when the decisions coincide",
+    "C17-6": "TLC's Hamiltonians rescaled to large units by powers of two (coefficients down to 2^-60): S * rhs_s(S z) = rhs(z) bit for bit",
+    "C18-5": "direct `_substitute_coordinates(x, M)` with non-symmetric integer / Gaussian-integer matrices against M x (the same change is C06-5, caught by C06)",
     "C20-2": "`spec/objects/probe/MCOrbitProbe.tla`: every writer out of every core state followed by every read",
 }
 
